@@ -175,7 +175,17 @@ def _is_fn_ty(f, l):
 
 
 def _ast_typed(f, l):
-    return (not _is_fn_ty(f, l)) and any(a.startswith(AST_PREFIXES) for a in f.local_adts(l))
+    if _is_fn_ty(f, l):
+        return False
+    for a in f.local_adts(l):
+        if a.startswith(AST_PREFIXES):
+            return True
+        # a repository struct that merely groups AST nodes / statement slices (a parameter group introduced by a refactoring)
+        adt = f.crate.adts.get(a)
+        if adt is not None and adt.get("kind") == "struct" and adt["variants"] and \
+                any(any(pfx in fld["ty"] for pfx in AST_PREFIXES) for fld in adt["variants"][0]["fields"]):
+            return True
+    return False
 
 
 def _derive_from_param(f, l, depth=0, seen=None, had_field=False):
@@ -353,6 +363,7 @@ def classify_scc(ctx, crate, cg, comp):
         return "visited-set", "%s: contains/insert on parameter `%s` dominate every in-SCC call" % (fid, f.local_name(v))
     # ---- structural recursion over the AST
     problems = []
+    same_edges = []
     n_calls = 0
     for fid in comp:
         f = crate.fns[fid]
@@ -407,6 +418,7 @@ def classify_scc(ctx, crate, cg, comp):
                 problems.append("%s -> %s has no AST-typed parameter" % (fid, t))
                 continue
             ok_any = False
+            all_from_params = True
             for i in ast_params:
                 if i - 1 >= len(c_args):
                     continue
@@ -417,10 +429,33 @@ def classify_scc(ctx, crate, cg, comp):
                 roots = _derive_from_param(f, place_local(p), had_field=any(o.startswith(AST_PREFIXES) for o, _ in proj_fields(place_projs(p))))
                 if roots and all(_strict(f, x) for x in roots):
                     ok_any = True
-            if not ok_any:
-                problems.append("%s -> %s: no AST-typed argument is a strict sub-node of the caller's parameter" % (fid, t))
+                if not roots or not all(x[0][0] in ("param", "upvar-param") for x in roots):
+                    all_from_params = False
+            if ok_any:
+                continue
+            if all_from_params:
+                # the callee receives the caller's own node(s) unchanged (a helper that only forwards: `visit_block(body)`):
+                # no descent on this edge, which is harmless as long as no cycle consists of such edges only
+                same_edges.append((fid, t))
+                continue
+            problems.append("%s -> %s: no AST-typed argument is a strict sub-node of the caller's parameter" % (fid, t))
+    if not problems and same_edges:
+        adj = defaultdict(set)
+        for a_, b_ in same_edges:
+            adj[a_].add(b_)
+        color = {}
+
+        def cyc(n):
+            color[n] = 1
+            for t2 in adj.get(n, ()):
+                if color.get(t2) == 1 or (t2 not in color and cyc(t2)):
+                    return True
+            color[n] = 2
+            return False
+        if any(n not in color and cyc(n) for n in list(adj)):
+            problems.append("a cycle of calls that only forward the same node: %s" % sorted(set(same_edges))[:3])
     if not problems and n_calls:
-        return "structural", "%d in-SCC call(s) each pass a strict sub-node of an AST parameter" % n_calls
+        return "structural", "%d in-SCC call(s): each passes a strict sub-node of an AST parameter, or forwards its node on an edge that lies on no descent-free cycle" % n_calls
     return "unknown", "; ".join(problems[:4])
 
 
